@@ -829,7 +829,7 @@ theorem C03_doc_refs (d : DocD) : refsOfList "ref" (docNode d).kids = (docRefs d
     (`DocOk`), pairwise different ids, and every reference points at one of the ids -/
 def writerModel : WriterModel where
   Input := DocD
-  Expressible d := DocOk d ∧ (docIds d).Nodup ∧ ∀ r ∈ docRefs d, r ∈ docIds d
+  Expressible := CR.C03.Expressible   -- DocOk d ∧ (docIds d).Nodup ∧ ∀ r ∈ docRefs d, r ∈ docIds d  (decidable)
   encode := docNode
 
 /-- **valid_doc.** `C03_valid_doc_full` for the complete writer model: every schema-expressible scenario with unique ids and
